@@ -47,7 +47,7 @@ func init() {
 }
 
 // enumeration cases appended to the case lists of C10/C11/C12 (see c10enum.go)
-const streamEnumQuick, streamEnumThorough = 96, 11*11*11*11 + 4000
+const streamEnumQuick, streamEnumThorough = 2*11*11 + 48, 11*11*11*11 + 4000
 
 func streamEnumIndex(c *fw.Ctx, quickBase, thoroughBase int) int {
 	base := quickBase
